@@ -132,6 +132,43 @@ theorem lib_readNumber_int (neg : Bool) (a rest : List Nat) (ha : Syntax.allDigi
       rw [hbr]; exact readSign_minus b _ hbd
     simp [Lexer.readNumber, hsg, hm, hx, hp]
 
+/-- a run of digits outside `i64` is lexed as a real carrying exactly that token -/
+theorem lib_readNumber_int_big (neg : Bool) (a rest : List Nat) (ha : Syntax.allDigits a = true)
+    (hne : a ≠ []) (hr : libEnds rest = true)
+    (hbig : if neg then 9223372036854775808 < Syntax.digitsVal a 0
+            else 9223372036854775807 < Syntax.digitsVal a 0) :
+    Lexer.readNumber ((if neg then [45] else []) ++ a ++ rest) =
+      .ok (.real ((if neg then [45] else []) ++ a), rest) := by
+  obtain ⟨b, r, hbr, hbd⟩ := allDigits_head a ha hne
+  have hm := takeMantissa_digits false a rest ha (Or.inl hr)
+  have hx := noExp rest hr
+  have hemp : a.isEmpty = false := by
+    cases a with
+    | nil => exact absurd rfl hne
+    | cons _ _ => rfl
+  cases neg with
+  | false =>
+    simp only [Bool.false_eq_true, if_false, List.nil_append] at hbig ⊢
+    have hnf : ¬ Syntax.digitsVal a 0 ≤ 9223372036854775807 := by omega
+    have hs : Lexer.splitSign a = (false, a) := by rw [hbr]; exact splitSign_digit b r hbd
+    have hp : Lexer.parseI64 a = none := by
+      simp [Lexer.parseI64, hs, hemp, lex_allDigits, ha, lex_digitsVal, hnf]
+    have ho : Lexer.overflowsI64 a = true := by
+      simp [Lexer.overflowsI64, hs, hemp, lex_allDigits, ha, hp]
+    have hsg : Lexer.readSign (a ++ rest) = .ok ([], a ++ rest) := by
+      rw [hbr]; exact readSign_digit b _ hbd
+    simp [Lexer.readNumber, hsg, hm, hx, hp, ho]
+  | true =>
+    simp only [if_true, List.singleton_append] at hbig ⊢
+    have hnf : ¬ Syntax.digitsVal a 0 ≤ 9223372036854775808 := by omega
+    have hp : Lexer.parseI64 (45 :: a) = none := by
+      simp [Lexer.parseI64, Lexer.splitSign, hemp, lex_allDigits, ha, lex_digitsVal, hnf]
+    have ho : Lexer.overflowsI64 (45 :: a) = true := by
+      simp [Lexer.overflowsI64, Lexer.splitSign, hemp, lex_allDigits, ha, hp]
+    have hsg : Lexer.readSign (45 :: (a ++ rest)) = .ok ([45], a ++ rest) := by
+      rw [hbr]; exact readSign_minus b _ hbd
+    simp [Lexer.readNumber, hsg, hm, hx, hp, ho]
+
 /-- a decimal token with a fraction part is lexed as a real carrying exactly that token -/
 theorem lib_readNumber_frac (neg : Bool) (a f rest : List Nat) (ha : Syntax.allDigits a = true)
     (hne : a ≠ []) (hf : Syntax.allDigits f = true) (hr : libEnds rest = true) :
